@@ -230,6 +230,31 @@ F13_MORE = {
         ("fix", "trim")),
 }
 
+_DC = ("from inline_snapshot import snapshot\nfrom dataclasses import dataclass\n\n\n@dataclass\nclass A:\n    x: int = 0\n    b: int = 0\n"
+       "    c: int = 0\n    d: int = 0\n\n\n")
+_RH = ("from inline_snapshot import snapshot, outsource\n\n\nclass R:\n    def __init__(self, v):\n        self.v = v\n\n    def __repr__(self):\n"
+       "        return '<R>'\n\n    def __eq__(self, o):\n        return isinstance(o, R) and o.v == self.v\n\n\n")
+# changes of different categories inside one container / one module: their positions and the generated imports must not depend
+# on which category was applied first
+ORDER_PROJECTS = {
+    "call: default-valued keyword (update) in front of a kept one, new keyword (fix)": (
+        _DC + "def test_a():\n    assert A(x=1, c=3, d=4) == snapshot(A(x=1, b=0, c=3))\n", ("fix", "update")),
+    "dict: respelled value (update), deleted and inserted keys (fix)": (
+        "from inline_snapshot import snapshot\n\n\ndef test_a():\n    assert {\"a\": 1, \"c\": 3} == snapshot({\"a\": 0+1, \"b\": 2})\n", ("fix", "update")),
+    "list: respelled element (update), deleted and inserted elements (fix)": (
+        "from inline_snapshot import snapshot\n\n\ndef test_a():\n    assert [1, 3, 4] == snapshot([0+1, 2, 3])\n", ("fix", "update")),
+}
+ORDER_MORE = {
+    "call: default-valued first keyword (update), changed and new keywords (fix)": (
+        _DC + "def test_a():\n    assert A(x=2, d=4) == snapshot(A(b=0, x=1))\n", ("fix", "update")),
+    "call: two default-valued keywords around a kept one, two new keywords": (
+        _DC + "def test_a():\n    assert A(x=1, c=5, d=4) == snapshot(A(b=0, x=1, d=0))\n", ("fix", "update")),
+    "imports: HasRepr (create) and external (fix) generated in one module": (
+        _RH + "def test_a():\n    assert R(1) == snapshot()\n\n\ndef test_b():\n    assert outsource('text') == snapshot('x')\n", ("create", "fix")),
+    "in-list: respelled member (update), new member (fix), unused member (trim)": (
+        "from inline_snapshot import snapshot\n\n\ndef test_a():\n    for x in (1, 4):\n        assert x in snapshot([0+1, 2])\n", ("fix", "trim", "update")),
+}
+
 
 def trailing_text_layout(src):
     """does some snapshot(...) argument have text (trailing comma / comment) between its last element and the closing bracket?"""
@@ -325,6 +350,7 @@ def _run(tier, seed, only=None):
                 else:
                     plans.append((tid, tpl, CATS))
             f13_set = dict(F13_PROJECTS) if quick else dict(F13_PROJECTS, **F13_MORE)
+            f13_set.update(ORDER_PROJECTS if quick else dict(ORDER_PROJECTS, **ORDER_MORE))
             for name, (src, cats) in f13_set.items():
                 plans.append((name, {"test_a.py": src, "pyproject.toml": PYPROJECT_PLAIN}, cats))
             if only == "C08":
